@@ -35,6 +35,13 @@ def header_variants(rnd, bnd):
         [b'\r\n'],
         [bytes(rnd.getrandbits(8) for _ in range(rnd.choice([1, 40, 300])))],
         [b'boundary=' + b'\r', b'boundary=\r\n'],
+        # several boundary lines on one handle (a redirect, a retry, a repeated Content-Type): the later one empty, quoted-empty,
+        # longer than the 70 characters RFC 2046 allows, or sane again after such a one
+        [ct + bnd + b'\r\n', ct + b'\r\n'],
+        [ct + bnd + b'\r\n', ct + b'""\r\n'],
+        [ct + bnd + b'\r\n', ct + b'x' * 71 + b'\r\n'],
+        [ct + bnd + b'\r\n', ct + b'y' * 300 + b'\r\n', ct + bnd + b'\r\n'],
+        [ct + b'z' * 71 + b'\r\n', ct + bnd + b'\r\n', ct + b'\r\n', ct + b'w' * 90 + b'\r\n'],
     ]
     return out
 
@@ -131,8 +138,13 @@ def gen_cases(tier, seed, ctx):
             for bb in BAD_BOUNDARIES + [bytes(rnd.getrandbits(8) | 1 for _ in range(rnd.choice([1, 3, 20]))) for _ in range(3)]:
                 if rnd.random() > (0.35 if tier == 'quick' else 1.0): continue
                 _, body2 = DG.respond(B, mr, boundary=bb)
-                for hv in header_variants(rnd, bb)[: (4 if tier == 'quick' else 13)]:
+                hvs = header_variants(rnd, bb)
+                for hv in (hvs[:4] + rnd.sample(hvs[4:], 3) if tier == 'quick' else hvs):
                     add('boundary/' + (bb[:12].hex()), t, flags, limit, hv, body2, rnd.choice(frag_kinds(rnd, len(body2), small)), rnd.choice(['stop', 'cont', 'clear', 'clear']))
+            # (b') several boundary lines on the handle, around the sane boundary and its body
+            for hv in header_variants(rnd, good_b)[13:]:
+                for mode in ('stop', 'clear'):
+                    add('boundary-repeated', t, flags, limit, hv, body, rnd.choice(frag_kinds(rnd, len(body), small)), mode)
             # (c) single-range path (no boundary header): short, long, damaged and foreign bodies
             if len(ranges) == 1:
                 h1, b1 = DG.respond(B, ranges)
